@@ -456,8 +456,12 @@ func ParseTupleAndKeywords(args Tuple, kwargs StringDict, format string, kwlist 
 			arg = args[i]
 		}
 
-		// Unspecified args retain their default value
+		// Unspecified args retain their default value; a required one
+		// that came neither by position nor by keyword is an error
 		if arg == nil {
+			if i < min {
+				return ExceptionNewf(TypeError, "%s() missing required argument '%s' (pos %d)", name, kw, i+1)
+			}
 			continue
 		}
 
